@@ -1,6 +1,7 @@
 """Obligations, known findings, evidence, verdict protocol (DESIGN section 4)."""
 import json
 import os
+import re
 import time
 
 from .repo import AnalysisError
@@ -149,10 +150,17 @@ def finish(ctx, level, explanation, checker_cmd, t0, seed=0):
     failed = [o for o in ctx.obligations if not o.ok]
     new = []
     matched = []
+    def nofunc(c):
+        # the construct without qualified function names: a finding is
+        # identified by its rule and statement / defect kind, so that renaming a
+        # private helper does not turn a known finding into a new violation
+        return re.sub(r"[A-Za-z_][\w.<>]*: ", "", c)
+
     for o in failed:
         hit = None
         for k in open_known:
-            if k["rule"] == o.rule and k["construct"] == o.construct:
+            if k["rule"] == o.rule and (k["construct"] == o.construct or
+                                        nofunc(k["construct"]) == nofunc(o.construct)):
                 hit = k
         if hit:
             matched.append((o, hit))
